@@ -1,9 +1,12 @@
 #!/usr/bin/env python3
 """copies the confirmed seeded changes from /tmp/seed_out into /verif/seeded/<id>/ (patch.diff, demonstration, meta.json)"""
 import json, os, re, shutil, sys
-SRC = '/tmp/seed_out'
+import sys
+ROUND = sys.argv[1] if len(sys.argv) > 1 else '1'
+SRC = '/tmp/seed_out' if ROUND == '1' else '/tmp/seed2_out'
 DST = '/verif/seeded'
-MAT = '/tmp/matrix'
+MAT = '/tmp/matrix' if ROUND == '1' else '/tmp/matrix2'
+SUF = '' if ROUND == '1' else 'b'
 for sid in sorted(os.listdir(SRC)):
     d = os.path.join(SRC, sid)
     if not os.path.exists(os.path.join(d, 'verified.json')):
@@ -12,7 +15,7 @@ for sid in sorted(os.listdir(SRC)):
     if not ver.get('ok'):
         print(sid, 'not verified, skipped')
         continue
-    out = os.path.join(DST, sid)
+    out = os.path.join(DST, sid + SUF)
     os.makedirs(out, exist_ok=True)
     shutil.copy(os.path.join(d, 'patch.diff'), os.path.join(out, 'patch.diff'))
     demo = [f for f in os.listdir(d) if f.endswith('.rs')][0]
@@ -33,12 +36,12 @@ for sid in sorted(os.listdir(SRC)):
         'demonstration_features': meta.get('demo_features', ''),
         'produced_by': 'a fresh sub-agent given only the text of property %s and a scratch git worktree of /repo' % sid,
         'what_was_run_to_confirm': {
-            'in': 'scratch worktree /tmp/seed_%s (removed afterwards); tools/verify_seed.sh %s' % (sid, sid),
+            'in': 'scratch worktree /tmp/seed%s_%s (removed afterwards); tools/verify_seed.sh %s' % ('' if ROUND == '1' else '2', sid, sid),
             'demonstration_with_patch_exit_code': ver['demo_rc_with_patch'],
             'pinned_suite_with_patch_exit_code': ver['suite_rc_with_patch'],
             'pinned_suite_passed_failed': ver['suite_passed_failed'],
             'demonstration_without_patch_exit_code': ver['demo_rc_without_patch'],
-            'demo_rustflags': {'C01': '-C target-feature=+sse4.1', 'C07': '-C target-feature=+fma,+avx2'}.get(sid, ''),
+            'demo_rustflags': ({'C01': '-C target-feature=+sse4.1', 'C07': '-C target-feature=+fma,+avx2'} if ROUND == '1' else {'C16': '-C target-feature=+sse4.1'}).get(sid, ''),
         },
         'checks_that_fire_quick_tier': sorted(c for c, v in fired.items() if v),
         'checks_run': sorted(fired),
